@@ -13,7 +13,8 @@ FUNCTIONS = ['uxarray.grid.connectivity._replace_fill_values',
     'uxarray.grid.coordinates._normalize_xyz@arrays',
     'uxarray.grid.coordinates._lonlat_rad_to_xyz@arrays',
     'uxarray.io._esmf._read_esmf',
-    'uxarray.io._ugrid._standardize_connectivity']
+    'uxarray.io._ugrid._standardize_connectivity',
+    'uxarray.grid.grid.Grid.__init__@class_state']
 STANDINS = ["sharing", "explicit_spec"]
 ASSUMPTIONS = []
 EXPLANATION = ""
